@@ -116,6 +116,7 @@ func parseDesc(kind, d string) (uid uint64, exact bool) {
 // recorder: one mutex orders the events of all goroutines
 
 type recorder struct {
+	t0     time.Time
 	mu     sync.Mutex
 	cond   *sync.Cond
 	events []map[string]any
@@ -123,7 +124,7 @@ type recorder struct {
 }
 
 func newRecorder() *recorder {
-	r := &recorder{}
+	r := &recorder{t0: time.Now()}
 	r.cond = sync.NewCond(&r.mu)
 	return r
 }
@@ -154,6 +155,7 @@ func (r *recorder) logS(s *scen, ev map[string]any, f func(ev map[string]any)) {
 	}
 	r.seq++
 	ev["seq"] = r.seq
+	ev["t"] = time.Since(r.t0).Milliseconds() // diagnostics only: never used for ordering
 	r.events = append(r.events, ev)
 	r.cond.Broadcast()
 	r.mu.Unlock()
@@ -469,7 +471,11 @@ func (s *scen) handle(ctx context.Context, hctx *rpc.HandlerContext) error {
 		s.rec.logS(s, map[string]any{"ev": "badreq", "uid": uid, "len": len(hctx.Request)}, nil)
 		return &rpc.Error{Code: -1, Description: "bad request"}
 	}
-	s.rec.logS(s, map[string]any{"ev": "enter", "id": cs.id}, func(map[string]any) { s.running++ })
+	// the channels are closed under the recorder mutex: whoever sees the event also sees the channel closed
+	s.rec.logS(s, map[string]any{"ev": "enter", "id": cs.id}, func(map[string]any) {
+		s.running++
+		cs.once[0].Do(func() { close(cs.entered) })
+	})
 	cs.once[0].Do(func() { close(cs.entered) })
 	var out string
 	select {
@@ -481,7 +487,10 @@ func (s *scen) handle(ctx context.Context, hctx *rpc.HandlerContext) error {
 			out = "cancelled"
 		}
 	}
-	s.rec.logS(s, map[string]any{"ev": "exit", "id": cs.id, "out": out}, func(map[string]any) { s.running-- })
+	s.rec.logS(s, map[string]any{"ev": "exit", "id": cs.id, "out": out}, func(map[string]any) {
+		s.running--
+		cs.once[1].Do(func() { close(cs.exited) })
+	})
 	cs.once[1].Do(func() { close(cs.exited) })
 	switch out {
 	case "ok":
@@ -566,7 +575,7 @@ func (s *scen) start(id int, client string, tmoMs int, ff bool, size int) *callS
 			ev["detail"] = detail
 		}
 		cs.res = res
-		s.rec.logS(s, ev, nil)
+		s.rec.logS(s, ev, func(map[string]any) { cs.once[2].Do(func() { close(cs.returned) }) })
 		cl.PutResponse(resp)
 		cs.once[2].Do(func() { close(cs.returned) })
 	}()
